@@ -10,33 +10,67 @@ from .model import operand, operand_model, MPoly
 from .wf import wf, denotes, snapshot, unchanged, install_poison
 
 SHAPES = [s for d in range(4) for s in itertools.product((1, 2, 3), repeat=d)]
-BOUNDS = ("bounded: arrays of 0-3 dimensions with extents 1..3, C-ordered / transposed view (p.T) / Fortran-ordered copy, "
+ZSHAPES = [(0,), (2, 0), (1, 0), (3, 1, 0), (0, 2), (0, 1), (0, 1, 3)]          # size 0
+LAYOUTS = ("C", "T", "F")
+NAMESETS = [["q0"], ["q1"], ["q0", "q1"], ["q1", "q2"], ["q0", "q1", "q2"], ["q2"]]
+BOUNDS = ("bounded: arrays of 0-3 dimensions with extents 1..3, laid out C-ordered / as transposed view p.T / as Fortran-ordered copy, "
           "int64 and float64 coefficients, 1-3 indeterminates, <=3 terms, exponents <=3; ")
 
 
-def rpoly(rng, shape, layout="C", **kw):
-    """operand spec whose array has `shape` once the layout ('C', 'T': .T view, 'F': Fortran copy) is applied"""
+def rpoly(rng, shape, layout="C", dtype=None, **kw):
+    """operand spec whose array has `shape` once the layout ('C', 'T': .T view, 'F': Fortran-ordered copy) is applied"""
     shape = tuple(shape)[::-1] if layout == "T" else tuple(shape)
-    return {"poly": rand_poly(rng, shape=shape, dtype=rng.choice(["int64", "int64", "float64"]), **kw)}
+    return {"poly": rand_poly(rng, shape=shape, dtype=dtype or rng.choice(["int64", "int64", "float64"]), **kw)}
+
+
+def layouts(shape):
+    """nested lists can only spell a trailing empty axis: a leading one is reached through the transposed view"""
+    return LAYOUTS if 0 not in shape else ("T",) if shape[-1] else ("C", "F")
 
 
 def make(spec, layout="C"):
-    """(operand, model, description of a broken input or None)"""
+    """(operand, model, description of a broken input or None); the model mirrors the layout (orders 'A'/'K' depend on it)"""
     x, m = operand(spec), operand_model(spec)
     if "poly" not in spec:
         return x, m, None
     if layout == "T":
         x, m = x.T, m.T
     elif layout == "F":
-        x, m = x.copy(order="F"), numpy.asfortranarray(m)      # the model mirrors the layout (orders 'A' and 'K' depend on it)
+        x, m = x.copy(order="F"), m.copy(order="F")
+    if not m.size:
+        return x, m, None if tuple(x.shape) == m.shape else f"input in layout {layout}: shape {x.shape}, expected {m.shape}"
     return x, m, wf(x, "input") or denotes(x, m, f"input in layout {layout}")
 
 
+def make_all(specs, layouts):
+    made = [make(s, l) for s, l in zip(specs, layouts)]
+    return [t[0] for t in made], [t[1] for t in made], next((t[2] for t in made if t[2]), None)
+
+
+class Raised:
+    def __init__(self, e):
+        self.text = f"{type(e).__name__}: {str(e)[:160]}"
+
+
+def attempt(f, *a, **k):
+    """the call's result, or Raised: an exception where numpy accepts the arguments is a violation, not a crash of the check"""
+    try:
+        return f(*a, **k)
+    except Exception as e:
+        return Raised(e)
+
+
 def ok(r, want, names, dtype, what="result"):
-    """r is an ndpoly of numpy's shape whose elements are exactly `want`, with the given names and dtype"""
+    """r is an ndpoly (or a sequence of them) of numpy's shape whose elements are exactly `want`, with the given names and dtype;
+    names: tuple (exact), predicate on the set of names, or list of those per item; dtype: one, or a list per item"""
     import numpoly
     if isinstance(r, Raised):
-        return f"{what}: numpoly raised {r.text} where numpy returns an array of shape {numpy.shape(want)}"
+        return f"{what}: numpoly raised {r.text} where numpy returns {'%d arrays' % len(want) if isinstance(want, (list, tuple)) else 'shape %s' % (numpy.shape(want),)}"
+    if isinstance(want, (list, tuple)):
+        if not isinstance(r, (list, tuple)) or len(r) != len(want):
+            return f"{what}: {type(r).__name__} of length {len(r) if hasattr(r, '__len__') else '?'}, numpy gives {len(want)} arrays"
+        return next((e for e in (ok(ri, wi, names[i] if isinstance(names, list) else names, dtype[i] if isinstance(dtype, list) else dtype,
+                                    f"{what}[{i}]") for i, (ri, wi) in enumerate(zip(r, want))) if e), None)
     want = numpy.array(want, dtype=object)
     for idx in numpy.ndindex(*want.shape):        # numpy pads with the integer 0 (diag): the zero polynomial
         want[idx] = want[idx] if isinstance(want[idx], MPoly) else MPoly.const(want[idx])
@@ -50,43 +84,15 @@ def ok(r, want, names, dtype, what="result"):
         err = f"{what}: cannot be read as a polynomial array ({type(e).__name__}: {e})"
     if err:
         return err
-    if names is not None and (tuple(r.names) != tuple(names) if isinstance(names, (list, tuple)) else not names(set(r.names))):
+    if not (names(set(r.names)) if callable(names) else tuple(r.names) == tuple(names)):
         return f"{what}: names {tuple(r.names)} do not preserve the input names"
     if r.dtype != numpy.dtype(dtype):
         return f"{what}: coefficient dtype {r.dtype}, inputs have {dtype}"
     return None
 
 
-def ok_seq(rs, wants, names, dtypes, what="result"):
-    if isinstance(rs, Raised):
-        return f"{what}: numpoly raised {rs.text} where numpy returns {len(wants)} arrays"
-    if not isinstance(rs, (list, tuple)) or len(rs) != len(wants):
-        return f"{what}: {type(rs).__name__} of length {len(rs) if hasattr(rs, '__len__') else '?'}, numpy gives {len(wants)} arrays"
-    for i, (r, w) in enumerate(zip(rs, wants)):
-        err = ok(r, w, names[i] if isinstance(names, dict) else names, dtypes[i] if isinstance(dtypes, list) else dtypes, f"{what}[{i}]")
-        if err:
-            return err
-    return None
-
-
-class Raised:
-    def __init__(self, e):
-        self.text = f"{type(e).__name__}: {str(e)[:200]}"
-
-
-def attempt(f, *a, **k):
-    """the call's result, or Raised: an exception where numpy accepts the arguments is a violation, not a crash of the check"""
-    try:
-        return f(*a, **k)
-    except Exception as e:
-        return Raised(e)
-
-
-def call(via, fn, x, pos, kw):
-    import numpoly
-    if via == "method":
-        return getattr(x, fn) if fn == "T" else getattr(x, fn)(*pos, **kw)
-    return getattr(numpoly if via == "numpoly" else numpy, fn)(x, *pos, **kw)
+def all_unchanged(before, xs):
+    return next((e for e in (unchanged(b, x, f"operand {i}") for i, (b, x) in enumerate(zip(before, xs))) if e), None)
 
 
 def fits(*shapes):
@@ -96,22 +102,19 @@ def fits(*shapes):
         return None
 
 
-def accepted(fn, shape, cands, via="numpy"):
-    """the candidate argument lists numpy accepts for an (object) array of this shape"""
-    dummy = numpy.empty(shape, dtype=object)
-    for pos, kw in cands:
-        try:
-            call(via, fn, dummy, pos, kw)
-        except Exception:
-            continue
-        yield pos, kw
+def call(via, fn, x, pos, kw):
+    import numpoly
+    if via == "method":
+        return getattr(x, fn) if fn == "T" else getattr(x, fn)(*pos, **kw)
+    return getattr(numpoly if via == "numpoly" else numpy, fn)(x, *pos, **kw)
 
 
-# ------------------------------------------------------------------ one array in, one array (or a list) out
+# ------------------------------------------------------------------ one array in, one array (or a list of arrays) out
 def cands(fn, shape):
+    """candidate (positional, keyword) arguments; those numpy rejects for this shape are filtered out by the generator"""
     nd, ax = len(shape), list(range(-len(shape), len(shape)))
     if fn == "reshape":
-        tgt = [list(s) for s in SHAPES] + [-1, 4, 6, 8, 9, 12, 18, 27, [-1, 1], [1, -1], [2, -1], [-1, 3], [3, -1, 3], [4, -1], [2, -1, 2], [6, -1], [9, -1]]
+        tgt = [list(s) for s in SHAPES + ZSHAPES] + [-1, 0, 4, 6, 8, 9, 12, 18, 27, [-1, 1], [1, -1], [2, -1], [-1, 3], [3, -1, 3], [4, -1], [2, -1, 2], [6, -1], [9, -1]]
         return [([t], k) for t in tgt for k in ({}, {"order": "F"}, {"order": "A"})]
     if fn == "transpose":
         return [([], {})] + [([list(p)], {}) for p in itertools.permutations(range(nd))] + [([[a - nd for a in range(nd)][::-1]], {})]
@@ -122,7 +125,7 @@ def cands(fn, shape):
     if fn in ("atleast_1d", "atleast_2d", "atleast_3d", "T"):
         return [([], {})]
     if fn in ("ravel", "flatten"):
-        return [([], {}), ([], {"order": "C"}), ([], {"order": "F"}), ([], {"order": "A"}), ([], {"order": "K"})][: 5 if fn == "ravel" else 4]
+        return [([], {})] + [([], {"order": o}) for o in "CFAK"]
     if fn == "repeat":
         out = [([r], k) for r in range(4) for k in [{}] + [{"axis": a} for a in ax]]
         return out + [([list(r)], {"axis": a}) for a in ax for r in itertools.product(range(3), repeat=shape[a])]
@@ -133,29 +136,30 @@ def cands(fn, shape):
     if fn == "diagonal":
         return [([], {})] + [([], {"offset": o, "axis1": a, "axis2": b}) for o in range(-3, 4) for a in ax for b in ax] + [([o], {}) for o in (-1, 1)]
     secs = [1, 2, 3, 4, [], [0], [1], [2], [3], [1, 2], [1, 1], [0, 2], [2, 1], [1, 5], [-1]]
-    if fn in ("split", "array_split"):
-        return [([s], k) for s in secs for k in [{}] + [{"axis": a} for a in ax]]
-    if fn in ("hsplit", "vsplit", "dsplit"):
-        return [([s], {}) for s in secs]
-    raise KeyError(fn)
+    return [([s], k) for s in secs for k in ([{}] + [{"axis": a} for a in ax] if fn in ("split", "array_split") else [{}])]
 
 
-UNARY = {"reshape": ("numpoly", "numpy", "method"), "transpose": ("numpoly", "numpy", "method"), "moveaxis": ("numpoly", "numpy"),
-         "expand_dims": ("numpoly", "numpy"), "atleast_1d": ("numpoly", "numpy"), "atleast_2d": ("numpoly", "numpy"),
-         "atleast_3d": ("numpoly", "numpy"), "repeat": ("numpoly", "numpy", "method"), "tile": ("numpoly", "numpy"),
-         "diag": ("numpoly", "numpy"), "diagonal": ("numpoly", "numpy", "method"), "ravel": ("method",), "flatten": ("method",),
-         "T": ("method",), "split": ("numpoly", "numpy"), "array_split": ("numpoly", "numpy"), "hsplit": ("numpoly", "numpy"),
-         "vsplit": ("numpoly", "numpy"), "dsplit": ("numpoly", "numpy")}
+ALL3, NP2 = ("numpoly", "numpy", "method"), ("numpoly", "numpy")
+UNARY = {"reshape": ALL3, "transpose": ALL3, "moveaxis": NP2, "expand_dims": NP2, "atleast_1d": NP2, "atleast_2d": NP2, "atleast_3d": NP2,
+         "repeat": ALL3, "tile": NP2, "diag": NP2, "diagonal": ALL3, "ravel": ("method",), "flatten": ("method",), "T": ("method",),
+         "split": NP2, "array_split": NP2, "hsplit": NP2, "vsplit": NP2, "dsplit": NP2}
 QUICK = {"reshape": 120, "repeat": 100, "tile": 80, "diagonal": 80, "moveaxis": 60, "transpose": 60, "split": 80, "array_split": 80}
 
 
 def gen_unary(fn):
     def gen(tier, rng):
-        space = [(s, pos, kw) for s in SHAPES for pos, kw in accepted(fn, s, cands(fn, s), "method" if UNARY[fn] == ("method",) else "numpy")]
+        space = []
+        for s in SHAPES + ZSHAPES:
+            for pos, kw in cands(fn, s):
+                try:
+                    call("method" if UNARY[fn] == ("method",) else "numpy", fn, numpy.empty(s, dtype=object), pos, kw)
+                    space.append((s, pos, kw))
+                except Exception:
+                    pass                          # numpy rejects these arguments for this shape
         if tier != "thorough":
             space = rng.sample(space, min(len(space), QUICK.get(fn, 40)))
         for i, (s, pos, kw) in enumerate(space):
-            for layout in (("C", "T", "F") if tier == "thorough" and len(space) < 1500 else (("C", "T", "F")[i % 3],)):
+            for layout in (layouts(s) if tier == "thorough" and len(space) < 1500 else (layouts(s)[i % len(layouts(s))],)):
                 yield {"fn": fn, "a": rpoly(rng, s, layout), "layout": layout, "pos": pos, "kw": kw, "via": rng.choice(UNARY[fn])}
     return gen
 
@@ -165,237 +169,175 @@ def unary(inp):
     x, m, bad = make(inp["a"], inp["layout"])
     if bad:
         return bad
-    fn, via, before = inp["fn"], inp["via"], snapshot(x)
-    want = call("method" if via == "method" else "numpy", fn, m, inp["pos"], inp["kw"])
-    r = attempt(call, via, fn, x, inp["pos"], inp["kw"])
-    judge = ok_seq if isinstance(want, (list, tuple)) else ok
-    return judge(r, want, x.names, x.dtype) or unchanged(before, x)
+    before = snapshot(x)
+    want = call("method" if inp["via"] == "method" else "numpy", inp["fn"], m, inp["pos"], inp["kw"])
+    r = attempt(call, inp["via"], inp["fn"], x, inp["pos"], inp["kw"])
+    return ok(r, want, x.names, x.dtype) or unchanged(before, x)
 
 
 for _fn, _vias in UNARY.items():
     check("C09", f"{_fn}.elements", gen_unary(_fn), functions=(f"numpoly.{_fn}",) if "numpoly" in _vias else ("numpoly.ndpoly",),
-          note=BOUNDS + f"every argument list numpy accepts from a fixed candidate grid (all axes/orders/sections/offsets/k/repeats<=3 for these "
-          f"shapes; results of size 0 included); spellings {'/'.join(_vias)}; thorough tier exhaustive over shape x arguments")(unary)
+          note=BOUNDS + f"plus 7 shapes with an extent 0; every argument list numpy accepts from a fixed grid (all axes, orders, permutations, "
+          f"sections/indices, offsets and k in -3..3, repeats/reps 0..3, scalar or per-element); spellings {'/'.join(_vias)}; thorough tier "
+          f"exhaustive over shape x arguments")(unary)
 
 
 # ------------------------------------------------------------------ several arrays in
 JOIN = ("concatenate", "stack", "hstack", "vstack", "dstack")
-NAMESETS = [["q0"], ["q1"], ["q0", "q1"], ["q1", "q2"], ["q0", "q1", "q2"], ["q2"]]
 
 
-def join_space():
-    out = []
-    for fn in JOIN:
-        for s1 in SHAPES:
-            for s2 in SHAPES:
-                if len(s2) > len(s1) + 1 or len(s1) > len(s2) + 1:
-                    continue
-                for kw in [{}] + ([{"axis": a} for a in [None] + list(range(-len(s1) - 1, len(s1) + 1))] if fn in JOIN[:2] else []):
-                    try:
-                        getattr(numpy, fn)([numpy.empty(s1, object), numpy.empty(s2, object)], **kw)
-                    except Exception:
-                        continue
-                    out.append((fn, s1, s2, kw))
-    return out
+def other(rng, shape, layout):
+    if rng.random() < 0.85:
+        return rpoly(rng, shape, layout, names=rng.choice(NAMESETS))
+    return {"array": nested(rng, shape, [-1, 0, 2]), "dtype": "int64"}
 
 
 def gen_join(tier, rng):
-    space = join_space()
-    if tier != "thorough":
-        space = rng.sample(space, 250)
-    for i, (fn, s1, s2, kw) in enumerate(space):
-        lay = [("C", "T", "F")[i % 3], ("C", "C", "F", "T")[i % 4]]
-        ops = [rpoly(rng, s1, lay[0], names=rng.choice(NAMESETS)), rpoly(rng, s2, lay[1], names=rng.choice(NAMESETS))]
-        if rng.random() < 0.3:      # a third operand: another polynomial or a plain array
+    space = []
+    for fn, s1, s2 in itertools.product(JOIN, SHAPES, SHAPES):
+        for kw in [{}] + ([{"axis": a} for a in [None] + list(range(-len(s1) - 1, len(s1) + 1))] if fn in JOIN[:2] else []):
+            try:
+                getattr(numpy, fn)([numpy.empty(s1, object), numpy.empty(s2, object)], **kw)
+                space.append((fn, s1, s2, kw))
+            except Exception:
+                pass
+    for i, (fn, s1, s2, kw) in enumerate(space if tier == "thorough" else rng.sample(space, 250)):
+        lay = [LAYOUTS[i % 3], ("C", "C", "F", "T")[i % 4]]
+        ops = [rpoly(rng, s1, lay[0], names=rng.choice(NAMESETS)), other(rng, s2, lay[1])]
+        if rng.random() < 0.3:      # a third operand shaped like one of the two
             k = rng.randrange(2)
-            extra = rpoly(rng, (s1, s2)[k], lay[k], names=rng.choice(NAMESETS))
-            ops.append(extra if rng.random() < 0.7 else {"array": nested(rng, (s1, s2)[k], [-1, 0, 2]), "dtype": "int64"})
+            ops.append(other(rng, (s1, s2)[k], lay[k]))
             lay.append(lay[k])
-        yield {"fn": fn, "ops": ops, "layouts": lay, "kw": kw, "via": rng.choice(["numpoly", "numpy"])}
-
-
-def joined_names(specs, xs):
-    union = {n for s, x in zip(specs, xs) if "poly" in s for n in x.names}
-    plain = any("poly" not in s for s in specs)
-    return lambda got: union <= got and (got <= union | {"q0"} if plain else got == union)
-
-
-def build_all(specs, layouts):
-    xs, ms = [], []
-    for s, l in zip(specs, layouts):
-        x, m, bad = make(s, l)
-        if bad:
-            return None, None, bad
-        xs.append(x)
-        ms.append(m)
-    return xs, ms, None
-
-
-@check("C09", "join.elements", gen_join, functions=tuple(f"numpoly.{f}" for f in JOIN),
-       note=BOUNDS + "concatenate/stack (every axis incl. None and default) and hstack/vstack/dstack of 2-3 operands whose shapes numpy "
-            "accepts, operands over different indeterminates and term sets, sometimes a plain int array; thorough exhaustive over shape pairs x axis")
-def join(inp):
-    import numpoly
-    install_poison()
-    xs, ms, bad = build_all(inp["ops"], inp["layouts"])
-    if bad:
-        return bad
-    before = [snapshot(x) for x in xs]
-    want = getattr(numpy, inp["fn"])(ms, **inp["kw"])
-    r = attempt(getattr(numpoly if inp["via"] == "numpoly" else numpy, inp["fn"]), xs, **inp["kw"])
-    return (ok(r, want, joined_names(inp["ops"], xs), numpy.result_type(*[x.dtype for x in xs]))
-            or next((e for e in (unchanged(b, x, f"operand {i}") for i, (b, x) in enumerate(zip(before, xs))) if e), None))
-
-
-def bshapes():
-    return [c for n in (1, 2, 3) for c in itertools.product(SHAPES, repeat=n) if n < 3 or all(len(s) < 3 for s in c)]
+        yield {"fn": fn, "ops": ops, "layouts": lay, "kw": kw, "via": rng.choice(NP2)}
 
 
 def gen_broadcast(tier, rng):
-    space = [c for c in bshapes() if fits(*c) is not None]
-    if tier != "thorough":
-        space = rng.sample(space, 150)
-    for i, c in enumerate(space):
-        lay = [("C", "T", "F")[(i + j) % 3] for j in range(len(c))]
-        yield {"ops": [rpoly(rng, s, l, names=rng.choice(NAMESETS)) for s, l in zip(c, lay)], "layouts": lay, "via": rng.choice(["numpoly", "numpy"])}
-
-
-@check("C09", "broadcast_arrays.elements", gen_broadcast, functions=("numpoly.broadcast_arrays",),
-       note=BOUNDS + "1-3 operands (3 operands: <=2 dimensions) of every broadcastable shape combination, different indeterminates; "
-            "each result keeps its own names and dtype; thorough exhaustive over shape combinations")
-def broadcast(inp):
-    import numpoly
-    install_poison()
-    xs, ms, bad = build_all(inp["ops"], inp["layouts"])
-    if bad:
-        return bad
-    before = [snapshot(x) for x in xs]
-    want = numpy.broadcast_arrays(*ms)
-    r = attempt((numpoly if inp["via"] == "numpoly" else numpy).broadcast_arrays, *xs)
-    return (ok_seq(r, want, {i: x.names for i, x in enumerate(xs)}, [x.dtype for x in xs])
-            or next((e for e in (unchanged(b, x, f"operand {i}") for i, (b, x) in enumerate(zip(before, xs))) if e), None))
+    space = [c for n in (1, 2, 3) for c in itertools.product(SHAPES, repeat=n) if (n < 3 or all(len(s) < 3 for s in c)) and fits(*c) is not None]
+    for i, c in enumerate(space if tier == "thorough" else rng.sample(space, 150)):
+        lay = [LAYOUTS[(i + j) % 3] for j in range(len(c))]
+        yield {"fn": "broadcast_arrays", "ops": [rpoly(rng, s, l, names=rng.choice(NAMESETS)) for s, l in zip(c, lay)], "layouts": lay, "kw": {},
+               "via": rng.choice(NP2)}
 
 
 def gen_where(tier, rng):
-    ok_ = [c for c in itertools.product(SHAPES, repeat=3) if (all(len(s) < 3 for s in c) or len(set(c)) == 1) and fits(*c) is not None]
-    for i, (sc, s1, s2) in enumerate(ok_ if tier == "thorough" else rng.sample(ok_, 150)):
-        lay = [("C", "T", "F")[i % 3], ("C", "F", "T", "C")[i % 4]]
-        y = rpoly(rng, s2, lay[1], names=rng.choice(NAMESETS)) if rng.random() < 0.85 else {"array": nested(rng, s2, [-1, 0, 2]), "dtype": "int64"}
-        yield {"cond": nested(rng, sc, [True, False]), "ops": [rpoly(rng, s1, lay[0], names=rng.choice(NAMESETS)), y], "layouts": lay,
-               "via": rng.choice(["numpoly", "numpy"])}
+    space = [c for c in itertools.product(SHAPES, repeat=3) if (all(len(s) < 3 for s in c) or len(set(c)) == 1) and fits(*c) is not None]
+    for i, (sc, s1, s2) in enumerate(space if tier == "thorough" else rng.sample(space, 150)):
+        lay = [LAYOUTS[i % 3], ("C", "F", "T", "C")[i % 4]]
+        yield {"fn": "where", "cond": nested(rng, sc, [True, False]), "ops": [rpoly(rng, s1, lay[0], names=rng.choice(NAMESETS)), other(rng, s2, lay[1])],
+               "layouts": lay, "kw": {}, "via": rng.choice(NP2)}
 
 
-@check("C09", "where.elements", gen_where, functions=("numpoly.where",),
-       note=BOUNDS + "boolean condition and two operands of every broadcastable shape triple (<=2 dimensions, or three equal 3-d shapes), "
-            "operands over different indeterminates, sometimes a plain int array; thorough exhaustive over shape triples")
-def where(inp):
+def several(inp):
     import numpoly
     install_poison()
-    xs, ms, bad = build_all(inp["ops"], inp["layouts"])
+    xs, ms, bad = make_all(inp["ops"], inp["layouts"])
     if bad:
         return bad
-    cond = numpy.array(inp["cond"], dtype=bool)
     before = [snapshot(x) for x in xs]
-    want = numpy.where(cond, ms[0], ms[1])
-    r = attempt((numpoly if inp["via"] == "numpoly" else numpy).where, cond, xs[0], xs[1])
-    return (ok(r, want, joined_names(inp["ops"], xs), numpy.result_type(*[x.dtype for x in xs]))
-            or next((e for e in (unchanged(b, x, f"operand {i}") for i, (b, x) in enumerate(zip(before, xs))) if e), None))
+    fn, mod = inp["fn"], numpoly if inp["via"] == "numpoly" else numpy
+    union = {n for s, x in zip(inp["ops"], xs) if "poly" in s for n in x.names}
+    plain = any("poly" not in s for s in inp["ops"])      # a plain array brings no name; numpoly may add its default one
+    names, dtype = (lambda got: union <= got and (got <= union | {"q0"} if plain else got == union)), numpy.result_type(*[x.dtype for x in xs])
+    if fn == "where":
+        cond = numpy.array(inp["cond"], dtype=bool)
+        want, r = numpy.where(cond, *ms), attempt(mod.where, cond, *xs)
+    elif fn == "broadcast_arrays":
+        want, r = numpy.broadcast_arrays(*ms), attempt(mod.broadcast_arrays, *xs)
+        names, dtype = [tuple(x.names) for x in xs], [x.dtype for x in xs]      # each result keeps its own
+    else:
+        want, r = getattr(numpy, fn)(ms, **inp["kw"]), attempt(getattr(mod, fn), xs, **inp["kw"])
+    return ok(r, want, names, dtype) or all_unchanged(before, xs)
+
+
+DIFFERENT = "operands over different indeterminates and term sets, sometimes a plain int array; "
+check("C09", "join.elements", gen_join, functions=tuple(f"numpoly.{f}" for f in JOIN),
+      note=BOUNDS + "concatenate/stack (every axis incl. None and default) and hstack/vstack/dstack of 2-3 operands whose shapes numpy accepts, "
+      + DIFFERENT + "result names = union, dtype = numpy.result_type; thorough exhaustive over shape pairs x axis")(several)
+check("C09", "broadcast_arrays.elements", gen_broadcast, functions=("numpoly.broadcast_arrays",),
+      note=BOUNDS + "1-3 operands (3 operands: <=2 dimensions) of every broadcastable shape combination, different indeterminates; "
+      "each result keeps its own names and dtype; thorough exhaustive over shape combinations")(several)
+check("C09", "where.elements", gen_where, functions=("numpoly.where",),
+      note=BOUNDS + "boolean condition and two operands of every broadcastable shape triple (<=2 dimensions, or three equal 3-d shapes), "
+      + DIFFERENT + "thorough exhaustive over shape triples")(several)
 
 
 def gen_choose(tier, rng):
     space = [(n, s, sa) for n in (1, 2, 3) for s in SHAPES[:13] for sa in SHAPES[:13] if fits(s, sa) is not None]
     for i, (n, s, sa) in enumerate(space if tier == "thorough" else rng.sample(space, 120)):
         mode = rng.choice(["raise", "raise", "wrap", "clip"])
-        pool = list(range(n)) if mode == "raise" else list(range(-n - 1, n + 2))
-        lay = ("C", "T", "F")[i % 3]
-        yield {"a": nested(rng, sa, pool), "choices": rpoly(rng, (n,) + s, lay), "layout": lay,
-               "kw": {} if mode == "raise" and rng.random() < 0.5 else {"mode": mode}, "via": rng.choice(["numpoly", "numpy"])}
+        yield {"a": nested(rng, sa, list(range(n)) if mode == "raise" else list(range(-n - 1, n + 2))), "choices": rpoly(rng, (n,) + s, LAYOUTS[i % 3]),
+               "layout": LAYOUTS[i % 3], "kw": {} if mode == "raise" and rng.random() < 0.5 else {"mode": mode}, "via": rng.choice(NP2)}
 
 
 @check("C09", "choose.elements", gen_choose, functions=("numpoly.choose",),
-       note=BOUNDS + "1-3 choices of 0-2 dimensions, index array of every broadcastable shape, modes raise (indices in range), "
-            "wrap and clip (indices in -n-1..n+1); thorough exhaustive over shape pairs")
+       note=BOUNDS + "1-3 choices of 0-2 dimensions, integer index array (0-d included) of every broadcastable shape, modes raise (indices in "
+            "range), wrap and clip (indices in -n-1..n+1); thorough exhaustive over shape pairs")
 def choose(inp):
     import numpoly
     install_poison()
     x, m, bad = make(inp["choices"], inp["layout"])
     if bad:
         return bad
-    a = numpy.array(inp["a"], dtype=int)
-    before = snapshot(x)
-    want = numpy.choose(a, m, **inp["kw"])
+    a, before = numpy.array(inp["a"], dtype=int), snapshot(x)
     r = attempt((numpoly if inp["via"] == "numpoly" else numpy).choose, a, x, **inp["kw"])
-    return ok(r, want, x.names, x.dtype) or unchanged(before, x)
+    return ok(r, numpy.choose(a, m, **inp["kw"]), x.names, x.dtype) or unchanged(before, x)
 
 
 def gen_full(tier, rng):
-    tgt = [[0], [2, 0]] + [list(s) for s in SHAPES] + [1, 2, 3]
+    targets = [list(s) for s in SHAPES + ZSHAPES] + [0, 1, 2, 3]
     for i in range(count(tier, 150, 1500)):
-        shape = rng.choice(tgt)
+        lay, dt = LAYOUTS[i % 3], rng.choice(["int64", "float64"])
+        shape = rng.choice(targets)
+        inp = {"fn": "full", "shape": shape, "layout": lay, "kw": rng.choice([{}, {}, {"order": "F"}, {"order": "C"}]), "via": "numpoly"}
         tup = tuple(shape) if isinstance(shape, list) else (shape,)
-        fs = rng.choice([s for s in SHAPES if fits(s, tup) == tup] if rng.random() < 0.3 and 0 not in tup else [()])
-        lay = ("C", "T", "F")[i % 3]
-        inp = {"fn": "full", "shape": shape, "fill": rpoly(rng, fs, lay), "layout": lay, "kw": rng.choice([{}, {}, {"order": "F"}, {"order": "C"}])}
         if rng.random() < 0.5:
-            like = rpoly(rng, rng.choice(SHAPES), lay, names=rng.choice(NAMESETS))
-            like["poly"]["dtype"] = inp["fill"]["poly"]["dtype"]
-            inp.update(fn="full_like", like=like, kw=dict(inp["kw"], **rng.choice([{}, {"shape": shape}])))
-            if "shape" not in inp["kw"]:
-                inp["fill"] = rpoly(rng, (), lay)
-                inp["fill"]["poly"]["dtype"] = like["poly"]["dtype"]
-        yield dict(inp, via="numpoly" if inp["fn"] == "full" else rng.choice(["numpoly", "numpy"]))
+            ls = rng.choice(SHAPES)
+            inp.update(fn="full_like", like=rpoly(rng, ls, lay, dtype=dt, names=rng.choice(NAMESETS)), via=rng.choice(NP2))
+            if rng.random() < 0.5:
+                inp["kw"] = dict(inp["kw"], shape=shape)
+            else:
+                tup = ls
+        fs = rng.choice([s for s in SHAPES if fits(s, tup) == tup] or [()]) if rng.random() < 0.4 else ()
+        yield dict(inp, fill=rpoly(rng, fs, lay, dtype=dt))
 
 
 @check("C09", "full.elements", gen_full, functions=("numpoly.full", "numpoly.full_like"),
        note=BOUNDS + "full(shape, p) and full_like(a, p[, shape=]) for every target shape (also int shapes and extents 0), fill polynomial "
-            "0-d or broadcastable to the target, fill and prototype of the same coefficient dtype, order C/F; sampled")
+            "0-d or an array broadcastable to the target, fill and prototype of the same coefficient dtype, order default/C/F; sampled")
 def full(inp):
     import numpoly
     install_poison()
-    f, mf, bad = make(inp["fill"], inp["layout"])
+    (f, a), (mf, ma), bad = make_all([inp["fill"], inp.get("like", inp["fill"])], [inp["layout"]] * 2)
     if bad:
         return bad
-    before = snapshot(f)
+    before = [snapshot(f), snapshot(a)]
     if inp["fn"] == "full":
-        want = numpy.full(inp["shape"], mf, dtype=object, **inp["kw"])
-        r = attempt(numpoly.full, inp["shape"], f, **inp["kw"])
-        return ok(r, want, f.names, f.dtype) or unchanged(before, f, "fill value")
-    a, ma, bad = make(inp["like"], inp["layout"])
-    if bad:
-        return bad
-    ba = snapshot(a)
-    want = numpy.full_like(ma, mf, **inp["kw"])
-    r = attempt((numpoly if inp["via"] == "numpoly" else numpy).full_like, a, f, **inp["kw"])
-    return ok(r, want, f.names, a.dtype) or unchanged(before, f, "fill value") or unchanged(ba, a, "prototype")
+        want, r = numpy.full(inp["shape"], mf, dtype=object, **inp["kw"]), attempt(numpoly.full, inp["shape"], f, **inp["kw"])
+    else:
+        want, r = numpy.full_like(ma, mf, **inp["kw"]), attempt((numpoly if inp["via"] == "numpoly" else numpy).full_like, a, f, **inp["kw"])
+    return ok(r, want, f.names, a.dtype) or all_unchanged(before, [f, a])
 
 
 # ------------------------------------------------------------------ indexing and iteration
 def axis_items(n):
-    ints = [0, -1, n - 1, -n]
     sl = [[None, None, None], [1, None, None], [None, -1, None], [None, None, -1], [None, None, 2], [0, 0, None], [-2, None, None], [5, None, None]]
     arr = [{"a": [0]}, {"a": [n - 1, 0]}, {"a": [[0], [-1]]}, {"l": [0, n - 1, 0]}, {"a": []}, {"b": [i % 2 == 0 for i in range(n)]}, {"b": [False] * n}]
-    return sorted(set(ints)) + [{"s": s} for s in sl] + arr
+    return sorted({0, -1, n - 1, -n}) + [{"s": s} for s in sl] + arr
 
 
 def decode(idx):
     out = []
     for it in idx:
         if isinstance(it, dict):
-            it = (slice(*it["s"]) if "s" in it else it["l"] if "l" in it else
-                  numpy.array(it["a"], dtype=int) if "a" in it else numpy.array(it["b"], dtype=bool))
-        out.append(Ellipsis if it == "..." else it)
+            it = (slice(*it["s"]) if "s" in it else it["l"] if "l" in it else numpy.array(it["a"], dtype=int) if "a" in it
+                  else numpy.array(it["b"], dtype=bool))
+        out.append(Ellipsis if isinstance(it, str) else it)
     return out
 
 
 def gen_index(tier, rng):
-    def valid(s, idx):
-        try:
-            numpy.empty(s, object)[tuple(decode(idx))]
-            return True
-        except Exception:
-            return False
     for i in range(count(tier, 400, 6000)):
-        s = rng.choice(SHAPES)
+        s = rng.choice(SHAPES + ZSHAPES[:2] + ZSHAPES[4:5])
         for _ in range(20):
             idx = [rng.choice(axis_items(n)) for n in s[: rng.randint(0, len(s))]]
             for extra in ("...", None, None):
@@ -404,17 +346,18 @@ def gen_index(tier, rng):
             if rng.random() < 0.1 and s:
                 k = rng.randint(1, len(s))
                 idx = [{"b": nested(rng, s[:k], [True, False])}] + idx[k:]
-            if idx.count("...") < 2 and valid(s, idx):
+            try:
+                numpy.empty(s, dtype=object)[tuple(decode(idx))]
                 break
-        else:
-            idx = []
-        lay = ("C", "T", "F")[i % 3]
+            except Exception:
+                idx = []                          # numpy rejects this index: fall back to p[()]
+        lay = layouts(s)[i % len(layouts(s))]
         yield {"a": rpoly(rng, s, lay), "layout": lay, "index": idx, "bare": len(idx) == 1 and rng.random() < 0.7}
 
 
 @check("C09", "getitem.elements", gen_index, functions=("numpoly.ndpoly.__getitem__",),
-       note=BOUNDS + "index tuples over ints (incl. negative), slices (incl. negative step, empty, out of range), Ellipsis, newaxis, "
-            "integer arrays / lists (1-d, 2-d, empty), boolean masks per axis and over leading axes; sampled among those numpy accepts")
+       note=BOUNDS + "plus shapes (0,), (2,0), (0,2); index tuples over ints (incl. negative), slices (incl. negative step, empty, out of range), "
+            "Ellipsis, newaxis, integer arrays / lists (1-d, 2-d, empty), boolean masks per axis and over leading axes; sampled among those numpy accepts")
 def getitem(inp):
     install_poison()
     x, m, bad = make(inp["a"], inp["layout"])
@@ -423,19 +366,18 @@ def getitem(inp):
     idx = decode(inp["index"])
     idx = idx[0] if inp["bare"] else tuple(idx)
     before = snapshot(x)
-    want = m[idx]
-    r = attempt(lambda: x[idx])
-    return ok(r, want, x.names, x.dtype) or unchanged(before, x)
+    return ok(attempt(lambda: x[idx]), m[idx], x.names, x.dtype) or unchanged(before, x)
 
 
 def gen_iter(tier, rng):
-    for i, s in enumerate([s for s in SHAPES if s] * count(tier, 3, 30)):
-        lay = ("C", "T", "F")[(i // 39 + i) % 3]
+    for i, s in enumerate([s for s in SHAPES + ZSHAPES if s] * count(tier, 3, 30)):
+        lay = layouts(s)[(i // 46 + i) % len(layouts(s))]
         yield {"a": rpoly(rng, s, lay), "layout": lay, "how": rng.choice(["list", "for", "unpack", "flat"])}
 
 
 @check("C09", "iteration.elements", gen_iter, functions=("numpoly.ndpoly.__iter__", "numpoly.ndpoly.flat"),
-       note=BOUNDS + "every shape of 1-3 dimensions; list(p), for-loop, tuple unpacking, p.flat: as many items as numpy yields, item i is p[i]")
+       note=BOUNDS + "every shape of 1-3 dimensions plus 7 shapes with an extent 0; list(p), for-loop, star-unpacking, p.flat: as many items as "
+            "numpy yields, item i is exactly element i")
 def iteration(inp):
     install_poison()
     x, m, bad = make(inp["a"], inp["layout"])
@@ -443,4 +385,4 @@ def iteration(inp):
         return bad
     before = snapshot(x)
     walk = {"flat": lambda a: list(a.flat), "for": lambda a: [e for e in a], "unpack": lambda a: (lambda *e: list(e))(*a), "list": list}[inp["how"]]
-    return ok_seq(attempt(walk, x), walk(m), x.names, x.dtype, "items") or unchanged(before, x)
+    return ok(attempt(walk, x), walk(m), x.names, x.dtype, "items") or unchanged(before, x)
